@@ -232,6 +232,15 @@ def check_superdict(ctx, kind, name, calc, S, sd, warns, lines, checks):
             viol('warning-class', 'too-small warnings naming the thermodynamic range do not match the thermodynamic states that do not fit',
                  warnings=nwt, thermo_states_not_fitting=nthermo_out, on_the_boundary=nthermo_edge)
         if nout: ctx.count('too-small:vacancy-supercells')
+    else:
+        # interstitial: one warning per representative jump that is not its own image, none otherwise
+        cls = [fits(anysup, jl[0][1]) for jl in calc.jumpnetwork]
+        nout, nedge = cls.count('out'), cls.count('edge')
+        nw = len(small_warns)
+        if nw > nout + nedge:
+            viol('warning-count', 'too-small warnings were issued although every representative jump is its own minimum image',
+                 warnings=nw, jumps_not_fitting=nout, jumps_on_the_boundary=nedge)
+        if nout: ctx.count('too-small:interstitial-supercells')
 
     # ---- transitions
     if kind == 'I':
@@ -417,7 +426,7 @@ def _run(ctx, nmat, maxsites, Nthermo_list=(1,)):
     todo = [('I',) + z for z in c27zoo.interstitial_zoo(rng)] + [('V',) + z for z in c27zoo.vacancy_zoo(rng)]
     rng.shuffle(todo)
     for kind, name, crys, chem in todo:
-        if time.time() - t_start > (55 if ctx.quick else 1000): break
+        if time.time() - t_start > (45 if ctx.quick else 1000): break
         Nth = rng.choice(Nthermo_list)
         with warnings.catch_warnings():
             warnings.simplefilter('ignore')
